@@ -277,4 +277,83 @@ example : (SilkPlcGains.celtPlcRun SilkPlcGains.celtReset
      .good 3, .lost 3 0, .good 3, .good 3, .lost 3 0]).2 =
     [.pitch, .pitch, .pitch, .pitch, .pitch, .noise, .noise, .noise, .pitch] := by decide
 
+
+/-! ## Audit follow-ups -/
+
+/-- SILK / hybrid TOCs announce 10, 20, 40 or 60 ms frames: `opus_packet_has_lbrr`'s `nb_frames` is 1, 2 or 3. -/
+theorem lbrr_nb_frames : ∀ toc ∈ List.range 256, getMode toc ≠ MODE_CELT_ONLY →
+    (if samplesPerFrame toc 48000 > 960 then samplesPerFrame toc 48000 / 960 else 1) ∈ [1, 2, 3] := by decide +kernel
+
+/-- **lbrr_flag_is_has_lbrr.**  `opus_packet_has_lbrr` (C06's model `Framing.hasLbrr`) returns exactly the flag(s) the
+    SILK layer decodes.  For a SILK-only or hybrid packet with valid framing whose first frame is not empty: let
+    `frame0` be the bytes of the first frame, `bits` the first eight `ec_dec_bit_logp(·, 1)` results of a range decoder
+    freshly initialised on it (`ec_dec_init(frame0, size[0])`, as `opus_decode_frame` does), and `n` the number of SILK
+    frames per packet; then `hasLbrr` is `bits[n]` (the mid / mono LBRR flag, decoded after the `n` VAD flags) for a mono
+    packet and `bits[n] ∨ bits[2n+1]` (mid or side LBRR flag) for a stereo one. -/
+theorem lbrr_flag_is_has_lbrr (toc : Nat) (rest : Bytes) (hb : BytesOk (toc :: rest)) (hmode : getMode toc ≠ MODE_CELT_ONLY)
+    (r : Parsed) (hp : parseImpl false (toc :: rest) = .ok r) (s0 : Nat) (ss : List Nat) (hs : r.sizes = s0 :: ss)
+    (h0 : 0 < s0) (f0 : Nat) (fr : Bytes) (hd : (toc :: rest).drop r.payloadOffset = f0 :: fr) :
+    hasLbrr (toc :: rest) = .ok
+      (if getNbChannels toc = 2 then
+        (if (LbrrFlag.firstBits (RangeCoder.decInit (((toc :: rest).drop r.payloadOffset).take s0) s0) 8).getD
+              (if samplesPerFrame toc 48000 > 960 then samplesPerFrame toc 48000 / 960 else 1) 0 ≠ 0 ∨
+            (LbrrFlag.firstBits (RangeCoder.decInit (((toc :: rest).drop r.payloadOffset).take s0) s0) 8).getD
+              (2 * (if samplesPerFrame toc 48000 > 960 then samplesPerFrame toc 48000 / 960 else 1) + 1) 0 ≠ 0 then 1 else 0)
+       else
+        (LbrrFlag.firstBits (RangeCoder.decInit (((toc :: rest).drop r.payloadOffset).take s0) s0) 8).getD
+          (if samplesPerFrame toc 48000 > 960 then samplesPerFrame toc 48000 / 960 else 1) 0) := by
+  have htoc : toc < 256 := hb toc (by simp)
+  have hn := lbrr_nb_frames toc (List.mem_range.mpr htoc) hmode
+  generalize hnd : (if samplesPerFrame toc 48000 > 960 then samplesPerFrame toc 48000 / 960 else 1) = n at hn ⊢
+  have hn3 : n = 1 ∨ n = 2 ∨ n = 3 := by simpa using hn
+  -- the first frame as a byte string of its own
+  have hfr : ((toc :: rest).drop r.payloadOffset).take s0 = f0 :: fr.take (s0 - 1) := by
+    rw [hd]; cases s0 with
+    | zero => omega
+    | succ k => simp
+  have hbf : BytesOk (f0 :: fr.take (s0 - 1)) := by
+    intro x hx
+    have : x ∈ (toc :: rest).drop r.payloadOffset := by
+      rw [hd]; rcases List.mem_cons.mp hx with h | h
+      · rw [h]; simp
+      · exact List.mem_cons_of_mem _ (List.mem_of_mem_take h)
+    exact hb x (List.mem_of_mem_drop this)
+  rw [hfr, LbrrFlag.firstBits_eq (f0 :: fr.take (s0 - 1)) s0 hbf h0]
+  have hg : (f0 :: fr.take (s0 - 1)).getD 0 0 = f0 := rfl
+  rw [hg]
+  unfold hasLbrr
+  simp only [if_neg hmode, hnd, hp, hs, hd]
+  rw [if_neg (by omega)]
+  rcases hn3 with rfl | rfl | rfl <;> simp <;> split <;> rfl
+
+/-- Non-vacuity: a stereo SILK wide-band 20 ms packet `4C | 58 01 02` (code 0): `n = 1`, first frame byte `0x58 = 0101 1000`:
+    VAD mid 0, LBRR mid 1 → the flag is 1. -/
+example : parseImpl false [0x4C, 0x58, 1, 2] = .ok ⟨0x4C, 1, [3], 1, 0, 4⟩ ∧ getMode 0x4C ≠ MODE_CELT_ONLY ∧
+    hasLbrr [0x4C, 0x58, 1, 2] = .ok 1 ∧ getNbChannels 0x4C = 2 := by decide
+
+/-- Non-vacuity of `plc_chunking`: a freshly initialised 48 kHz stereo decoder (`2.5 ms = 120` samples) and a request of
+    `8·120` samples into a 1920-sample buffer satisfy its hypotheses; the chunk call returns all 960 samples. -/
+example : ∃ st, init 48000 2 = some st ∧ ∃ v r', nullAfterClamp exOracle (nullFrameLeaf exOracle) 0 ⟨.pcm, 0, 1920⟩ ((8 : Nat) * 120)
+    { st := st, k := 0, log := [] } = (.ret v, r') ∧ v = (8 : Nat) * 120 := by
+  refine ⟨_, rfl, ?_⟩
+  have hinv : DecInv _ := init_inv (fs := 48000) (ch := 2) rfl
+  obtain ⟨u, hu⟩ := units_of_fs hinv.fs
+  have hu120 : u = 120 := by have := hu.u400; simpa [init] using this.symm
+  subst hu120
+  obtain ⟨v, r', h1, _, _, _, _, h6, _⟩ := plc_chunking exOracle exOracle_ok _ 1920 _ (good_fresh hinv 1920) 120 hu 8 (by omega)
+    ⟨.pcm, 0, 1920⟩ (by simp [Ptr.room]) (callerBuf_cap _ _)
+  exact ⟨v, r', h1, h6 (by omega)⟩
+
+/-- Non-vacuity of `fec_call_shape`: the same decoder, a SILK wide-band 20 ms TOC (`0x48`, 960 samples per frame) and an FEC
+    request of 1920 samples satisfy its hypotheses (not CELT-only, previous mode not CELT-only, request ≥ one frame). -/
+example : ∃ st, init 48000 2 = some st ∧ ∃ r3, nativeFec exOracle ⟨.pcm, 0, 3840⟩ 1920 ((samplesPerFrame 0x48 48000 : Nat) : Int)
+    ((getMode 0x48 : Nat) : Int) ((getBandwidth 0x48 : Nat) : Int) ((getNbChannels 0x48 : Nat) : Int) 1 10
+    { st := st, k := 0, log := [] } = (.ret 1920, r3) := by
+  refine ⟨_, rfl, ?_⟩
+  have hinv : DecInv _ := init_inv (fs := 48000) (ch := 2) rfl
+  obtain ⟨u, hu⟩ := units_of_fs hinv.fs
+  obtain ⟨r1, v, r3, _, _, _, h4⟩ := fec_call_shape exOracle exOracle_ok _ 3840 ⟨.pcm, 0, 3840⟩ 1920 0x48 1 10 _ u
+    (good_fresh hinv 3840) hu (by decide) (by decide) (by omega) (by omega) (by simp) (callerBuf_cap _ _) (by decide)
+  exact ⟨_, h4⟩
+
 end OpusProps.C09
